@@ -119,6 +119,11 @@ func genC15(tier string, r *rng) {
 	for l := 0; l <= maxLen; l++ {
 		rec("", l)
 	}
+	// TeletexString / other 8-bit string types whose octets are not valid UTF-8: the value is those octets
+	for _, v := range []string{"a\xe9", "a\xe8", "\xff", "\xc3", "caf\xe9 ", " \x80", "\xe9,\xe9", "#\xa0", "\xf0\x9f", "ab\xc3\x28"} {
+		emitDN([][]atv{{{cn, v, 20}}})
+		emitDN([][]atv{{{cn, "x", 0}}, {{oids[2], v, 20}}})
+	}
 	// multi-RDN names, multi-valued RDNs, forced string types, random Unicode
 	words := []string{"example.com", "Acme, Inc.", " lead", "trail ", "#hash", "a+b=c", "Ünïcödé 日本", "x\\,y", "\"q\"", "<tag>", "semi;colon",
 		"  ", " ", "", "CN=evil,O=forged", "a,O=evil", "😀", "line\nbreak", "tab\there", "\\", "\\ ", "# ", " #"}
